@@ -48,7 +48,7 @@ Definition PInv (s : pub) : Prop :=
 Theorem deadline_armed_before_open_visible s :
   preach true s -> p_st s = Open -> p_until s = p_ghost s.
 Proof.
-  intros Hr. assert (HI : PInv s); [|by apply HI].
+  intros Hr. assert (HI : PInv s); [|exact (proj1 HI)].
   induction Hr as [|s s' _ IH Hst].
   - split; simpl; [discriminate|]. intros d H. discriminate.
   - destruct IH as [I1 I2]. inversion Hst; subst; simpl.
